@@ -26,8 +26,9 @@ THEOREMS = ["GmqttVerif.C09.elem_roundtrip", "GmqttVerif.C09.message_roundtrip",
             "GmqttVerif.C10Redis.redis_refines_mem_remove", "GmqttVerif.C10Redis.redis_refines_mem_replace",
             "GmqttVerif.C10Redis.redis_refines_mem_close",
             "GmqttVerif.C10Redis.sim_new"]
-COMPS = ["redis"]
-GO_EXTRA = ["broker"]
+from . import c10 as _c10
+COMPS = ["redis", "queue"]
+GO_EXTRA = ["broker", "queue_redis"]
 
 # ------------------------------------------------------------------------------------------------ redis-cmds
 
@@ -894,6 +895,10 @@ def streams(tier):
         (core.Stream("redis-stores", "redis", gen_stores, pred_stores, nontrivial_stores, drive_args=["stores"], oracle_args=["stores"]), 400 if quick else 8000),
         (CrashStream("redis-crash", "redis", gen_crash, pred_crash, nontrivial_crash, canon=canon_crash, hint=hint_crash,
                      oracle_args=["wire"], timeout=600), 30 if quick else 1000),
+        # the redis session queue as the broker drives it (shared with C10): same model, and every redis command of a queue
+        # method must run while the queue's lock is held — the crash-consistency theorems treat a method's commands as one
+        # sequence that no other method of the same queue interleaves with (seed C09-4)
+        (_c10.RedisStream("queue-redis", "queue", _c10.gen_redis, _c10.predicate, _c10.nontrivial, keep_prefix=2), 3000 if quick else 60000),
     ]
 
 def rec_f30(info):
